@@ -509,7 +509,7 @@ def mutate_text(rng, text):
     return text[:i] + rng.choice(TEXT_ALPHABET) + text[i:], 'insert'
 
 
-def text_check(ck, fmt, text, tlib, bf, label, expect_ast=None):
+def text_check(ck, fmt, text, tlib, bf, label, expect_ast=None, real=None):
     """the Lean text model (lexer + grammar, driver `benchparse` / `verilogparse`) against lark on the real grammar and against
     the real parser on ONE text: both accept or both reject; same statement list; and the model circuit built from the model's
     OWN parse of the text equals the real circuit (or both raise).  returns 'accept' / 'reject'"""
@@ -529,11 +529,12 @@ def text_check(ck, fmt, text, tlib, bf, label, expect_ast=None):
         return 'accept' if l_ok else 'reject'
     case = {'fmt': fmt, 'tlib': tlib, 'bf': bf, 'text': text, 'label': label}
     if not l_ok:
-        try:
-            parse_real(case)
-            ck.broken_tie(f'text model ({fmt}): accept/reject', 'grammar rejects the text but the real parser returned a circuit', inp=inp)
-        except Exception:
-            pass
+        if label == 'probe' or ck.rng.random() < 0.34:     # the real parser builds a new Lark object per call (70 ms): sampled
+            try:
+                parse_real(case)
+                ck.broken_tie(f'text model ({fmt}): accept/reject', 'grammar rejects the text but the real parser returned a circuit', inp=inp)
+            except Exception:
+                pass
         return 'reject'
     if fmt == 'bench':
         toks = ans[3:]
@@ -547,18 +548,22 @@ def text_check(ck, fmt, text, tlib, bf, label, expect_ast=None):
         r = verilog_text_request(ck, ans, tree, tlib, bf, inp, expect_ast)
         if r is None: return 'accept'
         case['_req'] = r
-    try:
-        c = parse_real(case)
-    except Exception:
-        c = None
+    if real is not None:
+        c = real[0]
+    else:
+        try:
+            c = parse_real(case)
+        except Exception:
+            c = None
     correspondence(ck, case, c)
     return 'accept'
 
 
-def text_stream(ck, case, n_mut):
-    """text-level correspondence on one generated text and `n_mut` small edits of it"""
+def text_stream(ck, case, n_mut, real=None):
+    """text-level correspondence on one generated text and `n_mut` small edits of it; real = (circuit or None,) when the real
+    parser has already been run on the text"""
     fmt = case['fmt']
-    st = text_check(ck, fmt, case['text'], case['tlib'], case['bf'], 'generated', expect_ast=case.get('ast'))
+    st = text_check(ck, fmt, case['text'], case['tlib'], case['bf'], 'generated', expect_ast=case.get('ast'), real=real)
     ck.hist[f'text:{fmt}:generated:{st}'] += 1
     for _ in range(n_mut):
         t, op = mutate_text(ck.rng, case['text'])
@@ -708,7 +713,7 @@ def run_netlist(ck, nl, cases, notes):
         except Exception as ex:
             c = None
         correspondence(ck, case, c)
-        if case['fmt'] in TEXT_FMTS: text_stream(ck, case, 3)
+        if case['fmt'] in TEXT_FMTS: text_stream(ck, case, 2 if case['fmt'] == 'verilog' else 3, real=(c,))
         try:
             ok, obs, exp = eval_case(case)
         except Exception as ex:
@@ -890,7 +895,7 @@ def odd_stream(ck, n, notes):
             except Exception as ex:
                 c = None; status = 'raises'
             correspondence(ck, odd, c)
-            if odd['fmt'] in TEXT_FMTS: text_stream(ck, odd, 1)
+            if odd['fmt'] in TEXT_FMTS: text_stream(ck, odd, 1, real=(c,))
             ck.case(key=('odd', odd['fmt'], odd['text']), nontrivial=False, tag=[f'odd:{label}:{status}', 'stream:odd'])
             done += 1
 
